@@ -312,7 +312,7 @@ fn compress_case<K: Kmer + Send + Sync>(c: &mut Case, gc: &GCase, which: Which) 
 pub const RULE_GRAPH: &str = "case = seeded hostile read set (1-8 reads from: random over 1-4 letter alphabets, copies, reverse complements, sub-reads, tandem repeats with unit <= K, hairpins, palindromic repeats, homopolymers, SNP variants, too-short and empty reads) x K type (17 types, K=4..64, small K weighted 70%) x stranded x threshold 1-3 x join predicate; distinct = hash of (K, stranded, threshold, reads); non-trivial = at least one merged node AND at least one of: palindromic key, repeated k-mer, threshold-rejected k-mer, branching k-mer";
 
 pub fn run_c01(ctx: &Ctx) {
-    let n = ctx.n(6000, 400_000);
+    let n = ctx.n(60_000, 3_000_000);
     ctx.run_group("compress", n, false, |c| {
         let gc = gen_gcase(c);
         with_graph_k!(gc.kidx, K => compress_case::<K>(c, &gc, Which::Lossless))
@@ -326,7 +326,7 @@ pub fn run_c01(ctx: &Ctx) {
 }
 
 pub fn run_c02(ctx: &Ctx) {
-    let n = ctx.n(6000, 400_000);
+    let n = ctx.n(60_000, 3_000_000);
     ctx.run_group("maximal", n, false, |c| {
         let gc = gen_gcase(c);
         with_graph_k!(gc.kidx, K => compress_case::<K>(c, &gc, Which::Maximal))
@@ -701,7 +701,7 @@ fn c03_case<K: Kmer + Send + Sync>(c: &mut Case, gc: &GCase) -> Result<(), Strin
 }
 
 pub fn run_c03(ctx: &Ctx) {
-    let n = ctx.n(3000, 200_000);
+    let n = ctx.n(30_000, 1_500_000);
     ctx.run_group("edges", n, false, |c| {
         let gc = gen_gcase(c);
         with_graph_k!(gc.kidx, K => c03_case::<K>(c, &gc))
@@ -826,7 +826,7 @@ fn c04_generic<K: Kmer + Send + Sync, P: Kmer, V: Vmer + Clone>(
     Ok(())
 }
 
-pub const C04_COMBOS: [(&str, &str, &str, usize); 16] = [
+pub const C04_COMBOS: [(&str, &str, &str, usize); 18] = [
     ("Kmer4", "Kmer2", "Lmer1", 4),
     ("Kmer5", "Kmer3", "DnaBytes", 5),
     ("Kmer5", "Kmer2", "DnaString", 5),
@@ -843,6 +843,8 @@ pub const C04_COMBOS: [(&str, &str, &str, usize); 16] = [
     ("Kmer32", "Kmer6", "Lmer3", 32),
     ("Kmer48", "Kmer8", "DnaString", 48),
     ("Kmer64", "Kmer4", "DnaBytes", 64),
+    ("Kmer20", "Kmer10", "DnaString", 20),
+    ("Kmer24", "Kmer10", "Lmer2", 24),
 ];
 
 fn c04_dispatch(c: &mut Case, combo: usize, gc: &GCase) -> Result<(), String> {
@@ -863,6 +865,8 @@ fn c04_dispatch(c: &mut Case, combo: usize, gc: &GCase) -> Result<(), String> {
         13 => c04_generic::<Kmer32, Kmer6, Lmer3>(c, gc),
         14 => c04_generic::<Kmer48, Kmer8, DnaString>(c, gc),
         15 => c04_generic::<Kmer64, Kmer4, DnaBytes>(c, gc),
+        16 => c04_generic::<Kmer20, Kmer10, DnaString>(c, gc),
+        17 => c04_generic::<Kmer24, Kmer10, Lmer2>(c, gc),
         _ => unreachable!(),
     }
 }
@@ -872,11 +876,27 @@ fn gen_c04(c: &mut Case) -> (usize, GCase) {
         c.rng.below(5)
     } else if c.rng.chance(7, 10) {
         c.rng.below(8)
+    } else if c.rng.chance(1, 12) {
+        // wide minimizers (4^10 / 4^12 entry permutations are allocated per call): rare
+        c.rng.range(16, 17)
     } else {
         c.rng.range(8, 15)
     };
     let k = C04_COMBOS[combo].3;
     let mut reads = gen_reads(&c.rng, k);
+    if combo >= 16 {
+        // low-complexity stretches make wide p-mers tie / recur
+        let n = 3 * k + c.rng.below(40);
+        let mut r = c.rng.bases(n, 4);
+        let a = c.rng.below(n - 12);
+        let runb = c.rng.base();
+        for x in r[a..a + 9 + c.rng.below(4)].iter_mut() {
+            *x = runb;
+        }
+        let second = r[c.rng.below(n / 2)..].to_vec();
+        reads.push(r);
+        reads.push(second);
+    }
     // longer reads so that several minimizer intervals occur
     if c.rng.chance(1, 2) {
         let n = 3 * k + c.rng.below(60);
@@ -896,7 +916,7 @@ fn gen_c04(c: &mut Case) -> (usize, GCase) {
 }
 
 pub fn run_c04(ctx: &Ctx) {
-    let n = ctx.n(2500, 100_000);
+    let n = ctx.n(20_000, 1_000_000);
     ctx.run_group("sharded_vs_direct", n, false, |c| {
         let (combo, gc) = gen_c04(c);
         c04_dispatch(c, combo, &gc).map_err(|e| {
@@ -1117,7 +1137,7 @@ fn c06_case<K: Kmer + Send + Sync>(c: &mut Case, gc: &GCase) -> Result<(), Strin
 }
 
 pub fn run_c06(ctx: &Ctx) {
-    let n = ctx.n(1200, 60_000);
+    let n = ctx.n(10_000, 500_000);
     ctx.run_group("strand", n, false, |c| {
         let mut gc = gen_gcase(c);
         gc.stranded = c.rng.chance(1, 3);
@@ -1426,7 +1446,7 @@ fn relabel_same<K: Kmer + Send + Sync>(g: &DebruijnGraph<K, Pay>) -> DebruijnGra
 }
 
 pub fn run_c09(ctx: &Ctx) {
-    let n = ctx.n(3000, 150_000);
+    let n = ctx.n(30_000, 1_500_000);
     ctx.run_group("recompress", n, false, |c| {
         let gc = gen_gcase(c);
         with_graph_k!(gc.kidx, K => c09_case::<K>(c, &gc))
